@@ -35,3 +35,18 @@ OBLIGATIONS += [dict(OB_DEPS, id='C08.deps', cases=[(False, False, False), (True
 
 from harness.nsrun import ns_fault_obligations, nsfaulted  # noqa: E402
 OBLIGATIONS += ns_fault_obligations('c08', 'C08', ['up-seek', 'down-path'])
+
+
+def reentrant_done(path, cbtype, transfer, act, size):
+    """C08.re: a subscriber that calls back into its own future (done / meta / set_exception / cancel / result) from
+    on_queued, on_progress or on_done - on every announce path - still gets on_done exactly once, and the transfer
+    ends (the run is C04.2's; here the callback clause is what is reported)"""
+    from harness import c04
+    r = c04.reentrant(path, cbtype, transfer, act, size)
+    if r and r != '~':
+        return 'c08: on_done not delivered exactly once after a subscriber re-entered its future (%s)' % r
+    return r
+
+
+from harness.c04 import OBLIGATIONS as _C04OBS  # noqa: E402
+OBLIGATIONS += [dict(o, id='C08.re', impl='reentrant_done') for o in _C04OBS if o['id'] == 'C04.2']
